@@ -55,6 +55,7 @@ class InMemoryMessageBroker(MessageBrokerT):
         for msg in q.processing:
             if msg.key.id_ == key.id_:
                 q.processing.remove(msg)
+                q.taken_by.pop(key.id_, None)
                 q.simple.put_nowait(msg)
                 break
 
@@ -68,6 +69,7 @@ class InMemoryMessageBroker(MessageBrokerT):
         for msg in q.processing:
             if msg.key.id_ == key.id_:
                 q.processing.remove(msg)
+                q.taken_by.pop(key.id_, None)
                 break
 
         await asyncio.sleep(0)
@@ -80,6 +82,7 @@ class InMemoryMessageBroker(MessageBrokerT):
         for msg in q.processing:
             if msg.key.id_ == key.id_:
                 q.processing.remove(msg)
+                q.taken_by.pop(key.id_, None)
                 q.dead.append(msg)
                 break
 
